@@ -8,9 +8,12 @@
        Create(B,nuked2612); Gen(A)), CEX lines give every first violation within the scope; they are
        replayed on the real library;
      - with the repairs switched on: NoBad holds on the whole reachable state space;
-     - in simulation mode (Emit): BEHAVIOUR lines = interleavings to replay on the real library. *)
+     - in simulation mode (Emit): BEHAVIOUR lines = interleavings to replay on the real library.
+   PanOps adds the calls that touch an instance's own settings / controllers (soft panning on and off, pan controller to
+   the left, to the right and back to the centre, volume controller, another volume model): with them P1 also says that the
+   panning decision of a call (eff.pan) is the one of the solo run.  The operation table is the same with and without them. *)
 EXTENDS Isolation, Json
-CONSTANTS N, MaxDepth, EmitDepth, PruneBad
+CONSTANTS N, MaxDepth, EmitDepth, PruneBad, PanOps
 VARIABLES S, bad1, bad2, hist
 vars == <<S, bad1, bad2, hist>>
 View == <<S.inst, S.g, S.solo, S.acc, bad1, bad2>>
@@ -22,7 +25,12 @@ OpsOf(i) == [k \in 1..Len(EmuSeq) |-> [e |-> "Create", i |-> i, emu |-> EmuSeq[k
                [e |-> "Pcm", i |-> i, v |-> 1],
                [e |-> "Lfo", i |-> i, v |-> 1] >> \o
             [k \in 1..Len(SwitchSeq) |-> [e |-> "Switch", i |-> i, emu |-> SwitchSeq[k]]] \o
-            << [e |-> "Reset", i |-> i], [e |-> "Close", i |-> i] >>
+            << [e |-> "Reset", i |-> i], [e |-> "Close", i |-> i] >> \o
+            << [e |-> "Set", i |-> i, s |-> "softpan", v |-> 1], [e |-> "Set", i |-> i, s |-> "softpan", v |-> 0],
+               [e |-> "Ctl", i |-> i, ch |-> 0, c |-> 10, v |-> 20], [e |-> "Ctl", i |-> i, ch |-> 0, c |-> 10, v |-> 105],
+               [e |-> "Ctl", i |-> i, ch |-> 0, c |-> 10, v |-> 64], [e |-> "Ctl", i |-> i, ch |-> 0, c |-> 7, v |-> 70],
+               [e |-> "Set", i |-> i, s |-> "vmodel", v |-> 3] >>
+PanEvents == {"Set", "Ctl"}
 RECURSIVE OpsUpTo(_)
 OpsUpTo(n) == IF n = 0 THEN <<>> ELSE OpsUpTo(n - 1) \o OpsOf(n)
 Ops == OpsUpTo(N)
@@ -31,6 +39,7 @@ ASSUME PrintT(<<"OPS", ToJson(Ops)>>)
 Init == S = S0(N) /\ bad1 = {} /\ bad2 = {} /\ hist = <<>>
 Next == \E k \in DOMAIN Ops :
   /\ PruneBad => bad1 = {}            \* CEX enumeration: a state with a P1 violation is not extended
+  /\ PanOps \/ Ops[k].e \notin PanEvents
   /\ Enabled(S, Ops[k])
   /\ S' = Step(S, Ops[k])
   /\ bad1' = bad1 \cup P1(S')
